@@ -235,15 +235,114 @@ Fixpoint obs_list_eqb (a b : list obs) : bool :=
   | _, _ => false
   end.
 
+(** ---------- the Basic -> HAMT decision (DynamicDirectory.AddChild, block mode) ---------- *)
+(** getEffectiveShardingSize: the per-directory threshold if positive, else the
+    package default HAMTShardingSize = 256 KiB *)
+Definition effective_threshold (thr : Z) : Z := if 0 <? thr then thr else 262144.
+
+(** needsToSwitchByBlockSize(name, nodeToAdd), maxLinks = 0: the value the
+    decision is taken on = estimatedSize - size of the entry being replaced
+    (sized from the OLD link: its CID and its Tsize, under the entry name)
+    + size of the new entry (sized from the NEW link) *)
+Definition decision_size (e : entry) (d : dir) : Z :=
+  let newsz := link_size e in
+  let oldsz := match find_link (e_name e) (links d) with
+               | Some old => linkSerializedSize (e_name e) (blen (e_cid old)) (e_tsize old)
+               | None => 0
+               end in
+  est d - oldsz + newsz.
+
+(** switch when the size exceeds the threshold (> not >=) *)
+Definition needs_switch (thr : Z) (e : entry) (d : dir) : bool :=
+  effective_threshold thr <? decision_size e d.
+
+(** the edit as a basic directory would perform it, and whether the dynamic
+    directory converts to a HAMT instead of performing it (only AddChild decides) *)
+Definition basic_edit (o : op) (d : dir) : dir * bool :=
+  match o with
+  | OAdd e => add_child e d
+  | ORemove n => remove_child n d
+  | OReload => (d, true)
+  end.
+Definition dyn_decide (thr : Z) (o : op) (d : dir) : bool :=
+  match o with OAdd e => needs_switch thr e d | _ => false end.
+
+(** one observation per operation of a dynamic directory:
+    (sharded after the call?, len(RawData) of the would-be basic directory after
+    the edit — measured on a shadow BasicDirectory —, and the usual observation
+    of the directory itself while it is still basic) *)
+Definition dobs := (bool * Z * obs)%type.
+Definition no_obs : obs := (0, 0, 0, 0, true).
+
+(** the history ends with the first conversion *)
+(** every operation comes with the threshold in force when it is called
+    (SetHAMTShardingSize may be called between operations) *)
+Fixpoint dyn_trace (d : dir) (ops : list (Z * op)) : list dobs :=
+  match ops with
+  | [] => []
+  | (thr, o) :: r =>
+      let '(d', ok) := basic_edit o d in
+      let w := blen (node_bytes d') in
+      if dyn_decide thr o d then [(true, w, no_obs)]
+      else (false, w, observe d' ok) :: dyn_trace d' r
+  end.
+
+(** the documented rule, judged on exact block lengths: after an AddChild the
+    directory is sharded iff the block the basic directory would serialise after
+    the edit exceeds the threshold; other operations never convert a basic
+    directory *)
+Definition decision_rule (thr : Z) (o : op) (sharded : bool) (wouldbe : Z) : bool :=
+  match o with
+  | OAdd _ => Bool.eqb sharded (effective_threshold thr <? wouldbe)
+  | _ => negb sharded
+  end.
+
+Fixpoint dyn_sound (d : dir) (ops : list (Z * op)) : bool :=
+  match ops with
+  | [] => true
+  | (thr, o) :: r =>
+      let '(d', _) := basic_edit o d in
+      let sh := dyn_decide thr o d in
+      decision_rule thr o sh (blen (node_bytes d')) && (if sh then true else dyn_sound d' r)
+  end.
+
+Definition dobs_eqb (a b : dobs) : bool :=
+  let '(a1, a2, a3) := a in let '(b1, b2, b3) := b in
+  Bool.eqb a1 b1 && (a2 =? b2) && (if a1 then true else obs_eqb a3 b3).
+Fixpoint dobs_list_eqb (a b : list dobs) : bool :=
+  match a, b with
+  | [], [] => true
+  | x :: a', y :: b' => dobs_eqb x y && dobs_list_eqb a' b'
+  | _, _ => false
+  end.
+
+(** specification on an observed dynamic history *)
+Fixpoint dyn_spec (ops : list (Z * op)) (trace : list dobs) : bool :=
+  match ops, trace with
+  | [], [] => true
+  | (thr, o) :: r, (sh, w, ob) :: tr =>
+      decision_rule thr o sh w &&
+      (if sh then match tr with [] => true | _ => false end
+       else obs_exact ob && (let '(_, _, len, _, _) := ob in len =? w) && dyn_spec r tr)
+  | _ :: _, [] => true      (* the harness stopped after a conversion *)
+  | [], _ :: _ => false
+  end.
+
 (** ---------- cases ---------- *)
 (** [CDir mode t ops trace]: NewBasicDirectory(WithStat(mode, t), block mode), then
     [ops]; [trace] = the observation after creation followed by one per operation.
     [CFun v vl name cid tsize ls mode t ds]: direct calls of the three size
     functions: varintLen(v) = vl, linkSerializedSize(name, cid, tsize) = ls,
-    dataFieldSerializedSize(mode, t) = ds. *)
+    dataFieldSerializedSize(mode, t) = ds.
+    [CDyn mode t ops first trace]: NewDirectory (a DynamicDirectory) in block
+    mode; [ops] = (threshold set by SetHAMTShardingSize before the call, operation):
+    adds, replacements, removals until
+    the first conversion to a HAMT; [first] = observation after creation, [trace]
+    one [dobs] per operation performed. *)
 Inductive case :=
 | CDir (mode : Z) (t : gtime) (ops : list op) (trace : list obs)
-| CFun (v vl : Z) (e : entry) (ls : Z) (mode : Z) (t : gtime) (ds : Z).
+| CFun (v vl : Z) (e : entry) (ls : Z) (mode : Z) (t : gtime) (ds : Z)
+| CDyn (mode : Z) (t : gtime) (ops : list (Z * op)) (first : obs) (trace : list dobs).
 
 Definition model_trace (fl : bool) (mode : Z) (t : gtime) (ops : list op) : option (list obs) :=
   let d0 := new_dir mode t in
@@ -274,4 +373,10 @@ Definition check_case (c : case) : verdict :=
         ((vl =? blen (enc v)) &&
          (ls =? blen (emit [link_entry e])) &&
          (ds =? blen (emit [(1, WBytes (dir_data_bytes mode t))])))
+  | CDyn mode t ops first trace =>
+      let d0 := new_dir mode t in
+      let done := firstn (length trace) ops in     (* operations actually performed *)
+      verdict_of
+        (obs_eqb (observe d0 true) first && dobs_list_eqb (dyn_trace d0 done) trace)
+        (obs_exact first && dyn_spec done trace)
   end.
